@@ -134,3 +134,27 @@ export function nameHashDifference(p1, p2) {
   const d = diffRuntypes(p1._runtype, p2._runtype);
   return d == null ? "identical-modulo-refs" : d;
 }
+
+// does the validator reach one of its named types again from inside it? Read off describe() so that it
+// does not depend on the reference being able to normalise the source type.
+export function isRecursiveParser(parser) {
+  let text;
+  try {
+    text = parser.describe();
+  } catch (e) {
+    return e instanceof RangeError;
+  }
+  const decls = [...text.matchAll(/^type\s+([A-Za-z_$][\w$]*)\s*=([\s\S]*?)(?=^type\s|\s*$(?![\s\S]))/gm)].map((m) => [m[1], m[2]]);
+  const names = decls.map((d) => d[0]);
+  const edges = new Map(decls.map(([n, body]) => [n, names.filter((m) => new RegExp(`(?<![\\w$"])${m.replace(/\$/g, "\\$")}(?![\\w$"])`).test(body))]));
+  const state = new Map();
+  const visit = (n) => {
+    if (state.get(n) === 1) return true;
+    if (state.get(n) === 2) return false;
+    state.set(n, 1);
+    for (const m of edges.get(n) || []) if (visit(m)) return true;
+    state.set(n, 2);
+    return false;
+  };
+  return names.some((n) => visit(n));
+}
